@@ -48,7 +48,8 @@ pub fn check_termination(sc: &Scenario, tr: &Trace) -> Result<(), Fail> {
             }
         }
         let mut ids = vec![];
-        for r in tr.inds.iter().filter(|r| r.entity == e) {
+        // (transactions of the post-run health check appear after the final probes and are not judged)
+        for r in tr.inds.iter().filter(|r| r.entity == e && r.t < t_probe) {
             let id = match &r.ind {
                 Indication::Report(rep) => rep.id,
                 _ => continue,
@@ -62,6 +63,12 @@ pub fn check_termination(sc: &Scenario, tr: &Trace) -> Result<(), Fail> {
             if tr.alive_at_end(e, id) {
                 if t_probe >= tstar + b {
                     let state = tr.probes.iter().rev().find(|p| p.entity == e && p.id == id).and_then(|p| p.report.clone());
+                    // the statement's exception: a transaction the user has suspended (and not resumed) may stay
+                    let user_suspended = state.as_ref().map(|r| r.state == TransactionState::Suspended).unwrap_or(false)
+                        && sc.actions.iter().any(|a| a.entity == e && matches!(a.kind, ActionKind::Suspend { .. }));
+                    if user_suspended {
+                        continue;
+                    }
                     return Err(Fail {
                         key: format!("never-ends:{role}"),
                         msg: format!(
@@ -195,7 +202,8 @@ pub fn run(ctx: &mut Ctx) {
     ctx.rule = "grid: both modes x closure x 6 NAK procedures x 4 fault-handler sets {default, abandon, cancel, mixed} x sizes {0,40,100} with limits 1..3 and timeouts 1..4 s drawn \
 per configuration. Per configuration (after a fault-free baseline): blackout of 0->1, of 1->0 and of both from every ordinal 0..=n (exhaustive); a direction that never passes one PDU kind \
 (Metadata, FileData, EOF, Finished, ACK(EOF), ACK(Finished), NAK), alone and in pairs (Finished+NAK, ACK(EOF)+Finished, ...); proptest: one blackout + one earlier fault, and user cancel \
-at either side followed by a blackout. Every run ends with a health check (fresh Put on a healed link). Non-trivial = the script removed at least one datagram; distinct by scenario."
+at either side followed by a blackout; and a 'chaos' family: the general scenario generator (both modes, every configuration, up to 4 faults) with up to 3 random user requests (cancel, suspend + resume after 0..3 s, \
+prompt NAK / keep-alive, report) triggered at random datagram ordinals and an optional blackout. Every run ends with a health check (fresh Put on a healed link). Non-trivial = the script removed at least one datagram; distinct by scenario."
         .into();
     ctx.assumptions = vec![
         "fault handlers are default, cancel or abandon; ignore and suspend are excluded by the statement".into(),
@@ -290,5 +298,45 @@ at either side followed by a blackout. Every run ends with a health check (fresh
     ctx.section = "blackout+fault+cancel-sampled".into();
     let n = ctx.tier.pick(30_000u64, 300_000);
     ctx.drive_proptest(&part, strat, n, 200);
+    // "chaos": the general scenario generator (both modes, all configurations, up to 4 faults) plus random user requests
+    // (cancel, suspend followed by resume, prompts) and optional blackouts: whatever happens, nothing may spin or stay forever
+    let chaos = (
+        scenario_strategy(Modes::Both, 4),
+        proptest::collection::vec((0u8..5, any::<bool>(), any::<bool>(), 0u32..14, 0u64..3000), 0..4),
+        proptest::option::of((0u32..14, 0u8..3)),
+    )
+        .prop_map(|(mut sc, cmds, blackout)| {
+            for (what, at_recv, dir, k, len) in cmds {
+                let who = if at_recv { 1 } else { 0 };
+                let trigger = Trigger::OnOrdinal { from: if dir { 0 } else { 1 }, to: if dir { 1 } else { 0 }, ordinal: if dir { k } else { k % 5 }, delay_ms: len % 3 };
+                match what {
+                    0 => sc.actions.push(Action { trigger, entity: who, kind: ActionKind::Cancel { put: 0 } }),
+                    1 => {
+                        sc.actions.push(Action { trigger, entity: who, kind: ActionKind::Suspend { put: 0 } });
+                        sc.actions.push(Action {
+                            trigger: Trigger::OnIndication { entity: who, put: 0, kind: "suspended".into(), delay_ms: len },
+                            entity: who,
+                            kind: ActionKind::Resume { put: 0 },
+                        });
+                    }
+                    2 => sc.actions.push(Action { trigger, entity: 0, kind: ActionKind::PromptNak { put: 0 } }),
+                    3 => sc.actions.push(Action { trigger, entity: 0, kind: ActionKind::PromptKeepAlive { put: 0 } }),
+                    _ => sc.actions.push(Action { trigger, entity: who, kind: ActionKind::Report { put: 0 } }),
+                }
+            }
+            if let Some((k, which)) = blackout {
+                match which {
+                    0 => sc.blackouts.push(Blackout::from_ordinal(0, 1, k)),
+                    1 => sc.blackouts.push(Blackout::from_ordinal(1, 0, k % 6)),
+                    _ => sc.blackouts.push(Blackout::of_kinds(1, 0, &[Kind::Finished])),
+                }
+            }
+            sc.health_check = true;
+            sc.horizon_ms = 3 * bound_ms(&sc, 0).max(bound_ms(&sc, 1)) + 20_000;
+            C03Case { sc }
+        });
+    ctx.section = "chaos-user-requests+faults".into();
+    let n = ctx.tier.pick(40_000u64, 500_000);
+    ctx.drive_proptest(&part, chaos, n, 200);
     ctx.section.clear();
 }
